@@ -113,3 +113,32 @@ Proof.
 Qed.
 
 End Flags.
+
+(* several samplers in one process *)
+Section PoolProofs.
+Context {C T : Type} (SC : Scalar C C) (S : Scalar C T).
+Variable igam_impl : C -> C -> nat -> C -> res C.
+Variable c_is_value : C -> bool.
+
+Lemma run_pool_spec (p : pool (C:=C)) (calls : list (nat * op (C:=C) (T:=T))) :
+  run_pool SC S igam_impl c_is_value p calls =
+  (p, map (fun ko => answer_pool SC S igam_impl c_is_value p (fst ko) (snd ko)) calls).
+Proof.
+  induction calls as [|[k o] rest IH]; [reflexivity|].
+  cbn [run_pool map fst snd]. rewrite IH. reflexivity.
+Qed.
+
+(* whatever else the process does with this or any other sampler, before or after: the i-th call, made on sampler k,
+   returns what that sampler returns for that operation alone *)
+Lemma run_pool_nth (p : pool (C:=C)) (calls : list (nat * op (C:=C) (T:=T))) i k o d s :
+  nth_error calls i = Some (k, o) -> nth_error p k = Some (d, s) ->
+  fst (run_pool SC S igam_impl c_is_value p calls) = p /\
+  nth_error (snd (run_pool SC S igam_impl c_is_value p calls)) i = Some (Some (answer SC S igam_impl c_is_value d s o)) /\
+  snd (run SC S igam_impl c_is_value d s [o]) = [answer SC S igam_impl c_is_value d s o].
+Proof.
+  intros Hc Hp. rewrite run_pool_spec. cbn [fst snd]. split; [reflexivity|]. split.
+  - rewrite nth_error_map, Hc. cbn [option_map fst snd]. unfold answer_pool. rewrite Hp. reflexivity.
+  - reflexivity.
+Qed.
+
+End PoolProofs.
